@@ -4,7 +4,7 @@
    directly from the contents; the model's check loops are not used), or, in a version that
    parses integers only, the new content spells a level otherwise than as an integer literal. *)
 From Verif Require Import Lib.Bytes Json.Ast Json.Parse Auth.GoJson Auth.Types Auth.Versions Auth.Abs
-     Auth.Decide Auth.Model Auth.PLSpec Auth.AllowedSpec.
+     Auth.Decide Auth.Model Auth.PLSpec Auth.AllowedSpec Auth.SpecRead.
 From Verif Require Import Run.RunC07.
 Open Scope N_scope.
 
@@ -32,8 +32,8 @@ Definition prop_no_escalation (args : list bytes) : bytes :=
   | None => bs "badargs"
   | Some (args', impl) =>
       if negb (bytes_eqb impl (bs "ok")) then bs "ok" else
-      with_case args'
-        (fun so ver e al =>
+      with_case2 args'
+        (fun so sr ver e al =>
            (* the version's switches come from the hand-written specification matrix
               (AllowedSpec.spec_flags_of / spec_int_levels), never from the generated table *)
            match spec_flags_of ver with
@@ -46,7 +46,7 @@ Definition prop_no_escalation (args : list bytes) : bytes :=
                              | _ => true end)
                then bs "FAIL non-integer level accepted in an integer-only version"
                else
-               let a := abs so f e al in
+               let a := abs_spec so sr f e al in
                match ai_create a, ai_new_pl a with
                | Some c, Some new =>
                    let L := user_power_level f c (ai_pl_present a) (ai_pl a) (ai_sender a) in
